@@ -1150,6 +1150,42 @@ func (e *Env) call(x *spec.Call) TV {
 		}
 		k := g.u.ElemComp(st.Elem())
 		return TV{fmt.Sprintf("(select %s (s.base %s))", g.read(e.cur, k), a.T), "(Array Int " + g.u.SortOf(st.Elem()) + ")", nil}
+	case "seen":
+		// seen(N): the set of keys already visited by the map range loop N
+		// (1-based loop number, as in `invariant N`)
+		n, ok := x.Args[0].(*spec.IntLit)
+		if !ok {
+			e.fail("seen(N) needs a literal loop number")
+		}
+		for h, li := range g.loops {
+			if fmt.Sprint(li.ord) != n.Val {
+				continue
+			}
+			for _, in := range h.Instrs {
+				nx, ok := in.(*ssa.Next)
+				if !ok {
+					continue
+				}
+				rng, ok := nx.Iter.(*ssa.Range)
+				if !ok {
+					continue
+				}
+				if mt, ok := types.Unalias(rng.X.Type()).Underlying().(*types.Map); ok {
+					k := g.seenComp(rng, g.u.SortOf(mt.Key()))
+					return TV{g.read(e.cur, k), g.u.compSort[k], nil}
+				}
+			}
+		}
+		e.fail("seen(%s): loop %s is not a map range loop", n.Val, n.Val)
+	case "unbox":
+		// unbox(iface, T): the value of (non-pointer) type T boxed in the interface
+		a := e.eval(x.Args[0])
+		tn := strings.ReplaceAll(x.Args[1].String(), " ", "")
+		t := e.lookupType(tn)
+		if t == nil || a.Sort != "Iface" {
+			e.fail("unbox(iface, T): bad arguments")
+		}
+		return TV{fmt.Sprintf("(select %s (i.val %s))", g.read(e.cur, g.u.BoxComp(t)), a.T), g.u.SortOf(t), t}
 	case "typeis":
 		// typeis(iface, T): dynamic type test
 		a := e.eval(x.Args[0])
@@ -1159,6 +1195,9 @@ func (e *Env) call(x *spec.Call) TV {
 			tn = id.Name
 		} else {
 			tn = strings.ReplaceAll(x.Args[1].String(), " ", "")
+		}
+		if strings.HasPrefix(tn, "ptr(") && strings.HasSuffix(tn, ")") {
+			tn = "*" + tn[4:len(tn)-1] // ptr(T): the pointer type *T
 		}
 		t := e.lookupType(tn)
 		if t == nil {
